@@ -201,3 +201,64 @@ def coc_ledger(boundary_log, dev: int, r, tag: str = ''):
                 else:
                     ch.sdu_left -= len(payload)
     return all_tx
+
+
+# -----------------------------------------------------------------------------
+REQUEST_CODES = {0x02, 0x04, 0x06, 0x08, 0x0A, 0x12, 0x14, 0x17, 0x19}
+RESPONSE_CODES = {0x01, 0x03, 0x05, 0x07, 0x09, 0x0B, 0x13, 0x15, 0x18, 0x1A}
+ONEWAY_CODES = {CODE_LE_CREDIT}     # consumes an identifier, never answered
+
+
+class SigWatch:
+    """Live watcher of the signalling commands one device sends (attach with rig.on_hci_logged): per link the
+    identifier of the last command, the number of commands, the requests still unanswered, and how often the
+    identifier wrapped around while requests were outstanding. Built on the independent ACL reassembler."""
+
+    def __init__(self, rig, dev: int):
+        self.dev = dev
+        self.reasm = vrig.RefReassembler()
+        self.last_ident: dict[int, int] = {}
+        self.sequence: dict[int, list[int]] = {}
+        self.commands: dict[int, int] = {}
+        self.outstanding: dict[int, dict[int, int]] = {}
+        self.wraps_with_outstanding = 0
+        self.max_outstanding_at_wrap = 0
+        self.zero_identifiers = 0
+        self.duplicate_outstanding = 0
+        rig.on_hci_logged.append(self.on_logged)
+
+    def on_logged(self, rec):
+        _seq, d, dr, pkt, _t = rec
+        if d != self.dev or pkt[0] != 0x02:
+            return
+        handle, pb, _bc, data = vrig.parse_acl(pkt)
+        for cid, payload in self.reasm.feed((d, dr, handle), pb, data):
+            if cid not in (LE_SIG, BR_SIG):
+                continue
+            for code, ident, _data in parse_signalling(payload):
+                out = self.outstanding.setdefault(handle, {})
+                if dr == vrig.H2C and (code in REQUEST_CODES or code in ONEWAY_CODES):
+                    prev = self.last_ident.get(handle, 0)
+                    self.commands[handle] = self.commands.get(handle, 0) + 1
+                    if ident == 0:
+                        self.zero_identifiers += 1
+                    if ident in out:
+                        self.duplicate_outstanding += 1
+                    if ident <= prev and out:
+                        self.wraps_with_outstanding += 1
+                        self.max_outstanding_at_wrap = max(self.max_outstanding_at_wrap, len(out))
+                    elif out and any(o > ident for o in out):
+                        # a request issued before the wrap is still unanswered after it
+                        self.max_outstanding_at_wrap = max(self.max_outstanding_at_wrap, len(out))
+                    self.last_ident[handle] = ident
+                    self.sequence.setdefault(handle, []).append(ident)
+                    if code in REQUEST_CODES:
+                        out[ident] = code
+                elif dr == vrig.C2H and code in RESPONSE_CODES:
+                    if code == CODE_CONN_RSP and len(_data) >= 6 and struct.unpack_from('<H', _data, 4)[0] == 1:
+                        continue        # "connection pending": the request stays outstanding
+                    out.pop(ident, None)
+
+    def forget(self, handle: int):
+        for t in (self.last_ident, self.commands, self.outstanding, self.sequence):
+            t.pop(handle, None)
